@@ -14,22 +14,26 @@ PROPERTY = "C18"
 LEAN_MODULE = "PyOak.Props.C18"
 THEOREMS = ["PyOak.Legacy.C18." + t for t in [
     "inv_init", "inv_step_new", "inv_step_attach", "inv_step_detach", "inv_step_dup",
-    "inv_step_replace_partial", "inv_step_rwith_partial", "inv_step_partial", "inv_run_partial",
+    "inv_step_replace", "inv_step_replace_partial", "inv_step_rwith_partial", "inv_step_rwith_parent_partial",
+    "inv_step_partial", "inv_run_partial",
     "inv_run_init_partial", "parent_is_holder", "holder_is_parent", "ancestors_chain", "cid_eq_spec",
 ]] + ["PyOak.Legacy." + t for t in [
-    "detachGo_facts", "inv_of_detachFacts", "detachGo_inv", "commitOne_inv", "attachPlan_facts", "commit_prefix",
-    "attach_inv", "construct_inv", "duplicate_ok",
+    "detachGo_facts", "inv_of_detachFacts", "detachGo_invX", "detachGo_inv", "commitOne_inv", "attachPlan_facts",
+    "commit_prefix", "attach_invX", "attach_inv", "construct_invX", "construct_inv", "duplicate_ok",
+    "clearParent_invX", "setContentId_invX", "resetContentId_inv", "kidsPos_swap", "swapped_invX",
+    "swapped_cid_parent", "replaceChild_some_inv", "replace_inv_parent", "detachGo_desc",
+    "replaceWith_inv_parent_some",
 ]]
 PARTIAL = [
-    "inv_step_replace_partial: replace() is proved for receivers WITHOUT a parent (attached root or detached node); "
-    "missing: the branch 'receiver has a parent' (clear parent, detach_self, re-create, _replace_child, conditional "
-    "_reset_content_id walk) passes through states where the parent holds a detached child (outside Inv) and needs the "
-    "lemmas for an invariant 'with one hole'",
-    "inv_step_rwith_partial: replace_with() is proved for receivers without a parent and new = None or a detached "
-    "node; missing: receiver with a parent (same hole), and new = an ATTACHED root (its children's parent ids dangle "
-    "while the ids are swapped)",
-    "inv_run_partial / inv_run_init_partial: induction over histories whose steps lie in the proved fragment "
-    "(all of construct / attach / detach / detach_self / duplicate, and replace / replace_with as above)",
+    "inv_step_rwith_partial / inv_step_rwith_parent_partial: replace_with() is proved (a) for receivers without a "
+    "parent and new = None or a detached node, (b) for receivers WITH a parent and new = a detached node under the "
+    "hypothesis that the parent is not a descendant of the receiver (no cycle through the receiver); missing: "
+    "receiver with a parent and new = None (the removing variant of _replace_child with its index shift), new = an "
+    "ATTACHED root (its children's parent ids dangle while the ids are swapped), and dropping the acyclicity "
+    "hypothesis (on a cyclic heap the detach of the receiver's subtree runs into the parent; to show: it does not end)",
+    "inv_run_partial / inv_run_init_partial: induction over histories whose steps lie in the proved fragment: ALL of "
+    "construct / attach / detach / detach_self / duplicate / replace (any receiver), and replace_with as above; side "
+    "condition of construct / replace: distinct child-field names, single fields hold at most one node",
     "transform visitor and ASTTransformer.execute are not modelled in Lean (compositions of the above driven by user "
     "callbacks): covered by the invariant oracle on the real objects only",
     "ancestors_chain covers ancestors(); get_depth / is_ancestor / calculated xpath are the same walk along `parent` and "
